@@ -45,7 +45,7 @@ theorem takeWhile_app {c : UInt8 → Bool} {s r : Bytes} (hs : ∀ x ∈ s, c x 
   | cons a s ih =>
     have ha : c a = true := hs a (by simp)
     have := ih (fun x hx => hs x (by simp [hx]))
-    simp [List.takeWhile, List.dropWhile, ha, this]
+    simp [ha, this]
 
 theorem takeWhile_split (c : UInt8 → Bool) (i : Bytes) :
     i = i.takeWhile c ++ i.dropWhile c ∧ (∀ x ∈ i.takeWhile c, c x = true) ∧ Stop c (i.dropWhile c) := by
